@@ -53,7 +53,8 @@ InitState(cfg, t0) ==
     c07     |-> TRUE,    \* the preconditions of C07 held so far (one exchange outstanding per session, ...)
     broken  |-> FALSE,   \* an assumption of the property statement was violated by the environment
     nConcl  |-> EmptyFn, \* ghost: <<s,tok>> -> number of conclusions (handler call or NACK)
-    nNack   |-> EmptyFn  \* ghost: <<s,mid>> -> number of NACK handler calls
+    nNack   |-> EmptyFn, \* ghost: <<s,mid>> -> number of NACK handler calls
+    pings   |-> {}       \* <<s,mid>> of the keepalive pings (Empty Confirmable messages) the library sent of its own accord
   ]
 
 InFl(st, s)   == {k \in DOMAIN st.fl : k[1] = s}
@@ -100,6 +101,15 @@ FirstTx_ok(st, s, mid) ==
 FirstTx_nstart(st, s) == SlotFree(st, s)          \* C08
 FirstTx_do(st, s, mid, sig) ==
   [StartTx(st, s, mid, st.pend[1].tok, sig) EXCEPT !.pend = << >>]
+
+(* Keepalive (coap_context_set_keepalive): an idle client session sends an  *)
+(* Empty Confirmable message of its own accord: coap_session_send_ping().   *)
+(* It is a Confirmable like any other - retransmitted, and it occupies one  *)
+(* of the session's NSTART slots (C08) - except that the Reset that answers *)
+(* it (the "pong") is its regular end: no NACK.                             *)
+Ping_ok(st, s, mid) == st.pend = << >> /\ <<s, mid>> \notin DOMAIN st.fl /\ <<s, mid>> \notin DOMAIN st.out /\ st.held[s] = << >>
+Ping_nstart(st, s) == SlotFree(st, s)             \* C08
+Ping_do(st, s, mid, tok, sig) == [StartTx(st, s, mid, tok, sig) EXCEPT !.pings = @ \cup {<<s, mid>>}]
 
 (* A Non-confirmable is transmitted inside the call, never held for NSTART. *)
 NonTx_ok(st, s, mid) ==
@@ -148,7 +158,8 @@ RxAck_do(st, s, mid) ==
   IF <<s, mid>> \in DOMAIN st.fl THEN Conclude(st, <<s, mid>>, "acked") ELSE st
 RxRst_do(st, s, mid) ==
   IF <<s, mid>> \in DOMAIN st.fl
-  THEN Owe(Conclude(st, <<s, mid>>, "rst"), ONack(s, mid, NackRst))
+  THEN IF <<s, mid>> \in st.pings THEN Conclude(st, <<s, mid>>, "rst")       \* pong
+       ELSE Owe(Conclude(st, <<s, mid>>, "rst"), ONack(s, mid, NackRst))
   ELSE st
 
 (* NACK handler called.  C06: only when owed, i.e. once per concluded CON.  *)
